@@ -133,3 +133,7 @@ func ghost_selfValid(v reflect.Value) bool                { return tryValidate(v
 func ghost_isUnp(v reflect.Value) bool                    { _, ok := valueIsUnpacker(v); return ok }
 func ghost_chasedI(v reflect.Value) reflect.Value         { return chaseValueInterfaces(v) }
 func ghost_accepts(vs []validatorTag, v interface{}) bool { return runValidators(v, vs) == nil }
+
+func ghost_implOf(t, u reflect.Type) bool     { return t.Implements(u) }
+func ghost_ptrTo(t reflect.Type) reflect.Type { return reflect.PtrTo(t) }
+func ghost_valRes(x Validator) error          { return x.Validate() }
